@@ -1,7 +1,180 @@
 package main
 
-import "verifharness/tr"
+// "sync" mode: one direction of filer.sync end to end. The real
+// command.doSubscribeFilerMetaChanges (through the verif hook) reads the two
+// filers' signatures, subscribes to the source filer, filters events that carry
+// the target's signature and applies the rest through the real FilerSink. Both
+// filers are stand-ins that speak the filer gRPC protocol on loopback:
+//   - the source stand-in answers GetFilerConfiguration (signature 11) and
+//     streams the one scripted event of the current step, then ends the stream;
+//   - the target stand-in answers GetFilerConfiguration (signature 22), KvGet /
+//     KvPut (the sync offset), LookupDirectoryEntry (found: the event's old
+//     entry, when the script says the old key exists; else not found) and
+//     RECORDS every CreateEntry / UpdateEntry / DeleteEntry request.
+// The stand-ins hold no model of a file tree and decide nothing.
+
+import (
+	"context"
+	"fmt"
+	"net"
+	"sync"
+
+	"google.golang.org/grpc"
+
+	"github.com/chrislusf/seaweedfs/weed/command"
+	"github.com/chrislusf/seaweedfs/weed/pb/filer_pb"
+	"github.com/chrislusf/seaweedfs/weed/util"
+
+	"verifharness/tr"
+)
+
+type fakeFiler struct {
+	filer_pb.UnimplementedSeaweedFilerServer
+	mu        sync.Mutex
+	signature int32
+	httpAddr  string // host:port such that gRPC listens on port+10000
+
+	// source role
+	event *filer_pb.SubscribeMetadataResponse
+
+	// target role
+	found    bool
+	oldEntry *filer_pb.Entry
+	isDir    bool
+	calls    []interface{}
+}
+
+func (f *fakeFiler) GetFilerConfiguration(ctx context.Context, req *filer_pb.GetFilerConfigurationRequest) (*filer_pb.GetFilerConfigurationResponse, error) {
+	return &filer_pb.GetFilerConfigurationResponse{Signature: f.signature, MaxMb: 4}, nil
+}
+
+func (f *fakeFiler) KvGet(ctx context.Context, req *filer_pb.KvGetRequest) (*filer_pb.KvGetResponse, error) {
+	return &filer_pb.KvGetResponse{}, nil
+}
+
+func (f *fakeFiler) KvPut(ctx context.Context, req *filer_pb.KvPutRequest) (*filer_pb.KvPutResponse, error) {
+	return &filer_pb.KvPutResponse{}, nil
+}
+
+func (f *fakeFiler) SubscribeMetadata(req *filer_pb.SubscribeMetadataRequest, stream filer_pb.SeaweedFiler_SubscribeMetadataServer) error {
+	f.mu.Lock()
+	ev := f.event
+	f.mu.Unlock()
+	if ev != nil {
+		if err := stream.Send(ev); err != nil {
+			return err
+		}
+	}
+	return nil // end of stream: the subscriber returns
+}
+
+func (f *fakeFiler) LookupDirectoryEntry(ctx context.Context, req *filer_pb.LookupDirectoryEntryRequest) (*filer_pb.LookupDirectoryEntryResponse, error) {
+	f.mu.Lock()
+	defer f.mu.Unlock()
+	if !f.found || f.oldEntry == nil {
+		return nil, filer_pb.ErrNotFound
+	}
+	e := *f.oldEntry
+	e.Name = req.Name
+	return &filer_pb.LookupDirectoryEntryResponse{Entry: &e}, nil
+}
+
+func (f *fakeFiler) record(op, dir string, entry *filer_pb.Entry, name string, fromOther bool, sigs []int32) {
+	f.mu.Lock()
+	defer f.mu.Unlock()
+	c := call{"op": op, "key": util.Join(dir, name), "isdir": f.isDir, "np": "", "name": "", "on": "", "c": "", "found": false,
+		"sigs": sigList(sigs), "other": fromOther}
+	if entry != nil {
+		c["isdir"] = entry.IsDirectory
+		c["name"] = entry.Name
+		c["c"] = string(entry.Content)
+	}
+	if op == "update" {
+		// the request names the directory to save into and the entry (with its name)
+		c["np"] = dir
+		c["on"] = entry.Name
+		c["found"] = true
+	}
+	f.calls = append(f.calls, c)
+}
+
+func (f *fakeFiler) CreateEntry(ctx context.Context, req *filer_pb.CreateEntryRequest) (*filer_pb.CreateEntryResponse, error) {
+	f.record("create", req.Directory, req.Entry, req.Entry.Name, req.IsFromOtherCluster, req.Signatures)
+	return &filer_pb.CreateEntryResponse{}, nil
+}
+
+func (f *fakeFiler) UpdateEntry(ctx context.Context, req *filer_pb.UpdateEntryRequest) (*filer_pb.UpdateEntryResponse, error) {
+	f.record("update", req.Directory, req.Entry, req.Entry.Name, req.IsFromOtherCluster, req.Signatures)
+	return &filer_pb.UpdateEntryResponse{}, nil
+}
+
+func (f *fakeFiler) DeleteEntry(ctx context.Context, req *filer_pb.DeleteEntryRequest) (*filer_pb.DeleteEntryResponse, error) {
+	f.record("delete", req.Directory, nil, req.Name, req.IsFromOtherCluster, req.Signatures)
+	return &filer_pb.DeleteEntryResponse{}, nil
+}
+
+func startFake(sig int32) *fakeFiler {
+	for try := 0; try < 50; try++ {
+		l, err := net.Listen("tcp", "127.0.0.1:0")
+		if err != nil {
+			tr.Fatal("listen: %v", err)
+		}
+		port := l.Addr().(*net.TCPAddr).Port
+		if port <= 11000 {
+			l.Close()
+			continue
+		}
+		f := &fakeFiler{signature: sig, httpAddr: fmt.Sprintf("127.0.0.1:%d", port-10000)}
+		s := grpc.NewServer()
+		filer_pb.RegisterSeaweedFilerServer(s, f)
+		go s.Serve(l)
+		return f
+	}
+	tr.Fatal("no usable port")
+	return nil
+}
+
+var (
+	fakeSrc, fakeDst *fakeFiler
+)
 
 func runSync(w *tr.Writer, ex []tr.Ev, src, dst string, mt1, mt2 int64) {
-	tr.Fatal("sync mode not implemented")
+	if fakeSrc == nil {
+		fakeSrc = startFake(sigSrc)
+		fakeDst = startFake(sigTarget)
+	}
+	for _, e := range ex[1:] {
+		if tr.S(e, "ev") != "apply" {
+			continue
+		}
+		_, resp, sigs := buildEvent(e, mt1, mt2)
+		fakeSrc.mu.Lock()
+		fakeSrc.event = resp
+		fakeSrc.mu.Unlock()
+		fakeDst.mu.Lock()
+		fakeDst.calls = []interface{}{}
+		fakeDst.found = tr.B(e, "found")
+		fakeDst.oldEntry = resp.EventNotification.OldEntry
+		fakeDst.isDir = tr.B(e, "isdir")
+		fakeDst.mu.Unlock()
+		var err error
+		pan := tr.Guard(func() {
+			err = command.VerifSyncOneDirection(grpc.WithInsecure(), fakeSrc.httpAddr, src, fakeDst.httpAddr, dst)
+		})
+		if pan != "" {
+			w.Emit(tr.Ev{"ev": "panic", "op": e, "msg": pan})
+			break
+		}
+		out := tr.Copy(e)
+		out["sigs"] = sigs
+		fakeDst.mu.Lock()
+		out["calls"] = fakeDst.calls
+		fakeDst.mu.Unlock()
+		out["err"] = ""
+		if err != nil {
+			out["err"] = err.Error()
+		}
+		out["tree"] = []interface{}{}
+		w.Emit(out)
+	}
 }
